@@ -68,6 +68,7 @@ static int rank_of(int kind, int *side) {
     *side = -1; return -1;
 }
 
+extern void (*hx_cb_nest_hook)(void);
 static int cb_req_body_tx(htp_tx_data_t *d);
 static int cb_res_body_tx(htp_tx_data_t *d);
 
@@ -179,6 +180,8 @@ static int cb_common(htp_tx_t *tx, int kind, const uint8_t *data, size_t len, in
         else if ((kind == CB_RES_HEADER_DATA || kind == CB_RES_TRAILER_DATA) && data) { if (r->raw[1].n < (1u << 20)) hb_put(&r->raw[1], data, len); }
         if (kind == CB_TX_COMPLETE) { hb_reset(&r->dumpz); hx_dump_tx(&r->dumpz, tx, 0); }
     }
+
+    if (hx_cb_nest_hook) hx_cb_nest_hook();
 
     /* callback deviations requested by the script */
     const hx_script *s = hx_cur_script;
